@@ -56,7 +56,7 @@ def run_harness(ctx, cases, what, timeout=900):
 def run(ctx):
     ctx.level = "model_checking"
     ctx.assumptions += [
-        "universe: 19 host patterns (none, a.io, *.io, *.a.io, b.a.io, *a.io, *, a.io:80, a.io:8080, A.io, a.io:443, *.io:8080, IPv6 literals [::1] [::1]:80 [::1]:8080 [::A], glob constructs {b,c}.a.io ?.a.io [bc].a.io) x 8 route paths (/, /x, /x/y, /X/y, /xy, /x*, /x/y*, /*); 19 request hosts (a.io, A.IO, b.a.io, B.a.Io, c.b.a.io, xa.io, q.net, a.io:80, a.io:443, a.io:8080, A.iO:8080, [::1], [::1]:80, [::1]:443, [::1]:8080, [::a], [::A]:80, c.a.io, d.a.io) x 7 request paths x TLS/plain x 3 matchers x glob on/off",
+        "universe: 22 host patterns (none, a.io, *.io, *.a.io, b.a.io, *a.io, *, a.io:80, a.io:8080, A.io, a.io:443, *.io:8080, IPv6 literals [::1] [::1]:80 [::1]:8080 [::A], glob constructs {b,c}.a.io ?.a.io [bc].a.io, wildcards with explicit ports *.a.io:80 *.a.io:443 *.a.io:8080) x 8 route paths (/, /x, /x/y, /X/y, /xy, /x*, /x/y*, /*); 21 request hosts (a.io, A.IO, b.a.io, B.a.Io, c.b.a.io, xa.io, q.net, a.io:80, a.io:443, a.io:8080, A.iO:8080, [::1], [::1]:80, [::1]:443, [::1]:8080, [::a], [::A]:80, c.a.io, d.a.io, b.a.io:8080, B.a.io:80) x 7 request paths x TLS/plain x 3 matchers x glob on/off",
         "a pattern that is literally the request host is an exact host whatever characters it contains ([::1] is a host, not a character class); otherwise, with globbing on, the pattern is read in the glob language (* ? [set] {a,b}) and is a wildcard host; among wildcard hosts the longer literal suffix after the last glob construct wins; two matching wildcard patterns with equal suffix length, or a '*' pattern with the longer suffix against a '*'-free pattern, are not ranked by the statement: such (table, request) pairs are generated as 'not posed'",
         "a table in which two different host patterns denote the same host on the connection at hand (a.io / a.io:80 / A.io), or two paths of one host that the matcher cannot tell apart (/X/y and /x/y under iprefix, /x* and /x under glob), is outside the claim (the statement does not rank them); such expectations are generated as 'not posed' and skipped",
         "nested braces, negated classes, ranges and '**' in host patterns and glob paths beyond literal + trailing '*' are outside the universe; path characters sorting below '*' (space ! \" # $ % & ' ( )) are outside the universe",
